@@ -279,7 +279,7 @@ C11-18, C18-17. Missed at first (16 of 19 stored):
 | C19-17 | silent | C19: natives without parameters as the first thing a fresh VM runs |
 | C19-18 | silent | C19: a slice handed to Call / Func as the only surplus parameter of a variadic function |
 
-The lists of unchanged-tree observations led to repairs F56-F59 and to the recorded findings K09-K11 (DESIGN 10.4
+The lists of unchanged-tree observations led to repairs F56-F60 and to the recorded findings K09-K11 (DESIGN 10.4
 also lists the observations that were not followed up).
 
 Two more defects of the unchanged tree came out of the sixth round: F53 and F54 (an any-typed operand holding a
@@ -289,7 +289,7 @@ A reverse-of-fix mutant of F52 (blank parameters) was also found to be reported 
 generated callees now spell unused parameters _ now and then.
 
 While these inputs were added, the strengthened checks met more genuine defects of the pinned tree
-(F44-F59 and K05-K11 in known_findings.json), among them two the C03 sub-agent had noticed on the
+(F44-F60 and K05-K11 in known_findings.json), among them two the C03 sub-agent had noticed on the
 unchanged tree while looking for places to plant its changes.
 """)
 print(open('/verif/seeded/RESULTS.md').read())
